@@ -56,22 +56,28 @@ def check(run, repo):
                   owner.module, fn)
     nA, nB, nC = D.sym('nA'), D.sym('nB'), D.sym('nC')
     owner, fn = repo.find_method(ci, 'get_HoRT')
-    desc = DictV({'A': nA, 'B': nB, 'C': nC})
-    nwarn = len(I.warnings)
-    H = I.call_method(r, 'get_HoRT', [], {'descriptors': desc, 'T': T})
+    cnt = {'A': nA, 'B': nB, 'C': nC}
     want = -(oA * nA + oB * nB) * Tr / T
-    run.check(same(H, want), 'REF.apply', 'References.get_HoRT', 'T given',
-              'adjustment is %s, expected -(sum offset*n) * T_ref/T' % show(H), owner.module, fn,
-              sample='References.get_HoRT({A:nA,B:nB,C:nC}, T) == -(offA*nA+offB*nB)*T_ref/T')
-    run.check(len(I.warnings) > nwarn and not isinstance(H, Raised), 'PATH.missing-descriptor', 'References.get_HoRT',
-              'absent descriptor', 'a descriptor absent from the references must produce a warning, not a failure',
-              owner.module, fn)
-    if isinstance(H, Rat):
-        run.check(D.d(H * T, 'T').iszero(), 'DERIV.T-free', 'References.get_HoRT', 'T*HoRT',
-                  'the adjustment in energy units depends on temperature', owner.module, fn)
-        lin = nA * D.d(H, 'nA') + nB * D.d(H, 'nB') + nC * D.d(H, 'nC')
-        run.check(same(lin, H), 'DERIV.linear', 'References.get_HoRT', 'composition',
-                  'the adjustment is not homogeneous linear in the composition', owner.module, fn)
+    # the descriptor the references do not know (C) is listed last, first and in the middle of the composition: its
+    # place must not matter, every known descriptor contributes
+    for order in ('ABC', 'CAB', 'ACB'):
+        desc = DictV({k: cnt[k] for k in order})
+        tag = '' if order == 'ABC' else ' [composition listed as %s]' % ','.join(order)
+        nwarn = len(I.warnings)
+        H = I.call_method(r, 'get_HoRT', [], {'descriptors': desc, 'T': T})
+        run.check(same(H, want), 'REF.apply', 'References.get_HoRT', 'T given' + tag,
+                  'adjustment is %s, expected -(sum offset*n) * T_ref/T' % show(H), owner.module, fn,
+                  sample='References.get_HoRT({A:nA,B:nB,C:nC}, T) == -(offA*nA+offB*nB)*T_ref/T')
+        run.check(len(I.warnings) > nwarn and not isinstance(H, Raised), 'PATH.missing-descriptor',
+                  'References.get_HoRT', 'absent descriptor' + tag,
+                  'a descriptor absent from the references must produce a warning, not a failure', owner.module, fn)
+        if isinstance(H, Rat):
+            run.check(D.d(H * T, 'T').iszero(), 'DERIV.T-free', 'References.get_HoRT', 'T*HoRT' + tag,
+                      'the adjustment in energy units depends on temperature', owner.module, fn)
+            lin = nA * D.d(H, 'nA') + nB * D.d(H, 'nB') + nC * D.d(H, 'nC')
+            run.check(same(lin, H), 'DERIV.linear', 'References.get_HoRT', 'composition' + tag,
+                      'the adjustment is not homogeneous linear in the composition', owner.module, fn)
+    desc = DictV(dict(cnt))
     H0 = I.call_method(r, 'get_HoRT', [], {'descriptors': DictV({'A': nA, 'B': nB})})
     run.check(same(H0, -(oA * nA + oB * nB)), 'REF.apply', 'References.get_HoRT', 'T omitted',
               'without T the adjustment must be the dimensionless offset at T_ref (got %s)' % show(H0), owner.module, fn)
